@@ -302,6 +302,9 @@ func genCase(t *rapid.T) Case {
 		multiLife := rapid.IntRange(0, 1).Draw(t, "multi_lifecycle") == 0
 		userEval := rapid.IntRange(0, 9).Draw(t, "user_eval") < 6
 		detDirect := rapid.IntRange(0, 2).Draw(t, "detector_direct") == 0
+		if rapid.Bool().Draw(t, "rotate") {
+			c.Rotate, c.MinConf, c.StableUS = true, 0, 0
+		}
 		for i := 0; i < n; i++ {
 			th := Thread{Role: "user"}
 			no := rapid.IntRange(4, 30).Draw(t, "nops")
